@@ -319,3 +319,72 @@ func directChecks(e Entry, m method, evs []*cEvent, withResets bool) {
 	}
 	count("direct_checks", 1)
 }
+
+// runResetRace: on a mock that already holds records, one call and one ResetCalls() are started at the same moment;
+// when both have returned, a ResetCalls() made with nothing in flight must leave no record. A reset that a call can
+// overtake between "lists emptied" and "bookkeeping updated" fails exactly here. On the instrumented binary the
+// lock operations yield, which widens the gaps between critical sections.
+func runResetRace(e Entry, rng *rand.Rand, rounds int) {
+	if !e.Resets {
+		return
+	}
+	in, _ := newInstance(e)
+	if len(in.methods) == 0 {
+		return
+	}
+	reset := in.mock.MethodByName("ResetCalls")
+	if !reset.IsValid() {
+		return
+	}
+	atomic.StoreInt32(&concurrentMode, 1)
+	defer atomic.StoreInt32(&concurrentMode, 0)
+	if !e.Stub {
+		for _, m := range in.methods {
+			m := m
+			in.field(m.Name).Set(reflect.MakeFunc(m.Sig, func([]reflect.Value) []reflect.Value { return zeros(m.Sig) }))
+		}
+	}
+	var yields int64
+	isync.Yield = func() {
+		if atomic.AddInt64(&yields, 1)%2 == 0 {
+			runtime.Gosched()
+		}
+	}
+	defer func() { isync.Yield = nil }()
+	call := func(m method) {
+		n := m.Sig.NumIn()
+		a := make([]reflect.Value, n)
+		tok := nextToken()
+		for i := 0; i < n; i++ {
+			a[i] = synth(m.Sig.In(i), tok, 0)
+		}
+		if m.Variadic {
+			in.meth(m.Name).CallSlice(a)
+		} else {
+			in.meth(m.Name).Call(a)
+		}
+	}
+	for r := 0; r < rounds; r++ {
+		m := in.methods[rng.Intn(len(in.methods))]
+		call(m)
+		start := make(chan struct{})
+		var wg sync.WaitGroup
+		wg.Add(2)
+		go func() { defer wg.Done(); <-start; call(m) }()
+		go func() { defer wg.Done(); <-start; reset.Call(nil) }()
+		close(start)
+		wg.Wait()
+		reset.Call(nil)
+		bad := false
+		for _, x := range in.methods {
+			if n := in.calls(x.Name).Call(nil)[0].Len(); n != 0 {
+				violation("C05", e.Name, x.Name, fmt.Sprintf("round %d: a call of %s and a ResetCalls() ran concurrently and returned; a further ResetCalls() with nothing in flight leaves %d records of %s", r, m.Name, n, x.Name), nil)
+				bad = true
+			}
+		}
+		count("reset_race_rounds", 1)
+		if bad {
+			break
+		}
+	}
+}
